@@ -24,13 +24,18 @@ CATALOGUE = {
                                         {'return_abs_area': False}]),
     'calculate_element_metrics': (ALL, [{}, {'raise_negative_metric': False},
                                         {'raise_negative_metric': False, 'return_abs_metric': True}]),
-    'calculate_incidence_matrix': (ALL, [{}, {'order1_only': True}]),
-    'calculate_adjacency_matrix': (ALL, [{}, {'mode': 'nodal'}]),
-    'calculate_adjacency_matrix_element': (ALL, [{}]),
-    'calculate_adjacency_matrix_node': (ALL, [{}, {'order1_only': True}]),
+    'calculate_incidence_matrix': (ALL, [{}, {'order1_only': True}, {'order1_only': False}]),
+    'calculate_adjacency_matrix': (ALL, [{}, {'mode': 'nodal'}, {'mode': 'nodal', 'order1_only': False}]),
+    'calculate_adjacency_matrix_element': (ALL, [{}, {'order1_only': False}]),
+    'calculate_adjacency_matrix_node': (ALL, [{}, {'order1_only': True}, {'order1_only': False}]),
     'calculate_laplacian_matrix': (ALL, [{}, {'mode': 'elemental'}]),
     'calculate_edge_gradient_matrix': (ALL, [{}, {'mode': 'elemental'}]),
-    'calculate_n_hop_adj': (ALL, [{}, {'mode': 'nodal', 'n_hop': 2}, {'n_hop': 2, 'include_self_loop': False}]),
+    'calculate_n_hop_adj': (ALL, [{}, {'mode': 'nodal', 'n_hop': 2}, {'n_hop': 2, 'include_self_loop': False},
+                                  {'n_hop': 1, 'include_self_loop': False},
+                                  {'mode': 'nodal', 'n_hop': 1, 'include_self_loop': False},
+                                  {'mode': 'nodal', 'n_hop': 1, 'include_self_loop': True},
+                                  {'mode': 'elemental', 'n_hop': 1, 'include_self_loop': False,
+                                   'order1_only': False}]),
     'calculate_e2v_matrix': (ALL, [{}, {'mode': 'nodal'}]),
     'calculate_element_degree': (ALL, [{}]),
     'filter_first_order_nodes': (ALL, [{}]),
@@ -54,6 +59,16 @@ CATALOGUE = {
     'calculate_elemental_spatial_gradients': (SOLID, [{'elemental_data': {'$elemental': 'w'}}]),
     'calculate_spatial_gradient_incidence_matrix': (SOLID, [{}]),
     'integrate_node_attribute_over_surface': (SOLID, [{'attr_name': 'u'}]),
+    'calculate_moving_average_elemental_data': (ALL, [{'elemental_data': {'$elemental': 'w'}},
+                                                      {'elemental_data': {'$elemental': 'w'}, 'hops': 2}]),
+    'calculate_moving_average_nodal_data': (ALL, [{'nodal_data': {'$nodal': 'u'}},
+                                                  {'nodal_data': {'$nodal': 'u'}, 'hops': 2}]),
+    'calculate_median_filter': (ALL, [{'data': {'$elemental': 'w'}},
+                                      {'data': {'$nodal': 'u'}, 'mode': 'nodal'}]),
+    'calculate_diffusion_elemental_data': (ALL, [{'elemental_data': {'$elemental': 'w'}}]),
+    'calculate_edge_differences': (ALL, [{'data': {'$elemental': 'w'}},
+                                         {'data': {'$nodal': 'u'}, 'mode': 'nodal'},
+                                         {'data': {'$elemental': 'w'}, 'include_self_loop': True}]),
 }
 # argument values used for the model's [Query a; Query a'] witnesses
 ARG_VALUES = {
@@ -233,6 +248,33 @@ def gen_history(rng, cat, modifiers, tier):
             kinds[next_o] = child_kind + '>' + d
             next_o += 1
     return hist
+
+
+def pair_histories(ctx, cat, cfgq, tier):
+    """every (query, variant) of the pool once as the first call of a fresh object, followed by
+    the sentinels = every variant of every memoised query (a query that changes the value object
+    of somebody's cache entry, or anything else later calls depend on, shows there); thorough:
+    sentinels also before it (entries that exist already), and every applicable mesh kind"""
+    rng = ctx.rng
+    out = []
+    memo = [q for q, c in cfgq.items() if c['lru'] is not None or c['slot'] is not None] or \
+        [q for q in cat if q.startswith('calculate_adjacency') or q == 'calculate_incidence_matrix']
+    pool = [(q, kw) for q in sorted(cat) for kw in cat[q][1]]
+    meshes = {}
+
+    def mesh(kind):
+        if kind not in meshes or tier == 'thorough':
+            meshes[kind] = gen_mesh(rng, kind, [])
+        return meshes[kind]
+    for n, (q1, kw1) in enumerate(pool):
+        kinds = list(cat[q1][0])
+        if tier != 'thorough':
+            kinds = [kinds[n % len(kinds)]]
+        for kind in kinds:
+            sent = [q_op(0, q, kw) for q in sorted(memo) if q in cat and kind in cat[q][0] for kw in cat[q][1]]
+            head = sent if tier == 'thorough' else []
+            out.append([{'op': 'new', 'o': 0, 'mesh': mesh(kind)}] + head + [q_op(0, q1, kw1)] + sent)
+    return out
 
 
 def run_impl(ctx, histories, tag='run', timeout=1500):
@@ -455,7 +497,7 @@ def candidates(hist, i):
         if key not in seen:
             seen.add(key)
             res.append(c)
-    return res[:12]
+    return res[:150]
 
 
 def ddmin(ctx, hist, i, kind):
@@ -793,6 +835,8 @@ def main(ctx):
     ctx.notes['probe_pairs'] = len(probes)
     for f, h in wit:
         batch.append(('witness', f, h))
+    for h in pair_histories(ctx, cat, cfgq, ctx.tier):
+        batch.append(('pairs', None, h))
     n_rand = 150 if ctx.tier == 'quick' else 1500
     for _ in range(n_rand):
         batch.append(('random', None, gen_history(ctx.rng, cat, modifiers, ctx.tier)))
@@ -843,7 +887,7 @@ def main(ctx):
     # ---- explain failures of longer histories by small candidate histories built from them
     if unexplained:
         cands, owner = [], []
-        for n, (hist, i, kind, detail) in enumerate(unexplained[:60]):
+        for n, (hist, i, kind, detail) in enumerate(unexplained[:40]):
             for c in candidates(hist, i):
                 cands.append(c)
                 owner.append(n)
@@ -860,7 +904,7 @@ def main(ctx):
             for n, (sig, c, det, kind) in best.items():
                 explained.add(n)
                 found.setdefault(json.dumps(sig, sort_keys=True), (sig, c, det, kind))
-        rest = [u for n, u in enumerate(unexplained[:60]) if n not in explained]
+        rest = [u for n, u in enumerate(unexplained[:40]) if n not in explained]
         ctx.notes['failing_long_histories'] = len(unexplained)
         ctx.notes['explained_by_small_history'] = len(explained)
         # anything left: shrink generically (bounded) and report as it is
